@@ -528,6 +528,16 @@ func (x *Explorer) Explore(fn *ssa.Function, params []Val) []*Outcome {
 		o := &Outcome{St: st, Rets: rets, Kind: kind, Loop: loop}
 		switch kind {
 		case exitReturn:
+			// `return helper(x)` / `_, err = f(x); return err`: the committed outcome is the one in which
+			// that error turned out nil — which, for a validation helper, is a fact about its argument
+			if idx := errResultIndex(fn.Signature); idx >= 0 && idx < len(rets) {
+				if e, ok := rets[idx].(*ErrV); ok && st.errs[e.ID] == 0 {
+					st.errs[e.ID] = 1
+					if strings.Contains(e.Origin, "(") && !strings.HasPrefix(e.Origin, "orm:") {
+						st.assume("Ok("+e.Origin+")", true)
+					}
+				}
+			}
 			o.Commit = !x.isAbort(st, fn, rets)
 		case exitLoopback:
 			o.Commit = true
